@@ -30,6 +30,7 @@ ASSUMPTIONS = ['both sides are real monitors of the same kind; no reference mode
                'pastified pairs have equal horizons by construction']
 REAL = common.REAL_ALL
 STUBS = common.STUBS_ALL
+INTERLEAVING_MEASURE = 'distinct (monitor kind, mode, number of updates or batches) tuples'
 PROBES = ['law_not_eventually', 'law_not_once', 'law_implies', 'law_eventually_eventually', 'law_once_once', 'law_since_expansion',
           'law_until_expansion', 'unbounded_version', 'online', 'pastified', 'dense_time', 'stateful_operand']
 
@@ -143,6 +144,7 @@ def feed(sc, ast, r):
 def run(sc):
     r = Result()
     r.faults.update(sc.get('fired') or {})
+    r.interleavings.add('%s|%s|%s' % (sc.get('kind'), sc.get('mode', ''), sc.get('nbatches') or sc.get('n')))
     if sc.get('nbatches', 1) > 1:
         r.faults['batch_split'] += sc['nbatches'] - 1
     dense = sc['kind'].startswith('ct')
